@@ -13,10 +13,26 @@ import ast
 from pathlib import Path
 
 
-def _is_guard_if(n) -> bool:
+def _ceiling_aliases(fn) -> set[str]:
+    """local names of a function that were assigned from an expression reading `.allowed_capabilities`
+    (`ceiling = self.allowed_capabilities`): a test on such a name is a test of the ceiling"""
+    out = set()
+    for x in ast.walk(fn):
+        val, tgts = None, []
+        if isinstance(x, ast.Assign):
+            val, tgts = x.value, x.targets
+        elif isinstance(x, (ast.AnnAssign, ast.NamedExpr)) and x.value is not None:
+            val, tgts = x.value, [x.target]
+        if val is not None and any(isinstance(y, ast.Attribute) and y.attr == "allowed_capabilities" for y in ast.walk(val)):
+            out.update(t.id for t in tgts if isinstance(t, ast.Name))
+    return out
+
+
+def _is_guard_if(n, aliases=frozenset()) -> bool:
     if not isinstance(n, ast.If):
         return False
-    reads = any(isinstance(x, ast.Attribute) and x.attr == "allowed_capabilities" for x in ast.walk(n.test))
+    reads = any((isinstance(x, ast.Attribute) and x.attr == "allowed_capabilities") or
+                (isinstance(x, ast.Name) and x.id in aliases) for x in ast.walk(n.test))
     stops = any(isinstance(x, ast.Raise) for s in n.body for x in ast.walk(s)) or \
         any(isinstance(s, ast.Return) for s in n.body)
     return reads and stops
@@ -25,13 +41,15 @@ def _is_guard_if(n) -> bool:
 def _helper_guards(cls) -> set[str]:
     out = set()
     for f in cls.body:
-        if isinstance(f, ast.FunctionDef) and any(_is_guard_if(s) for s in f.body):
-            out.add(f.name)
+        if isinstance(f, ast.FunctionDef):
+            al = _ceiling_aliases(f)
+            if any(_is_guard_if(s, al) for s in f.body):
+                out.add(f.name)
     return out
 
 
-def _is_guard_stmt(s, helpers) -> bool:
-    if _is_guard_if(s):
+def _is_guard_stmt(s, helpers, aliases=frozenset()) -> bool:
+    if _is_guard_if(s, aliases):
         return True
     if isinstance(s, ast.Expr) and isinstance(s.value, ast.Call):
         f = s.value.func
@@ -45,12 +63,12 @@ def _contains_execute(node) -> bool:
                for x in ast.walk(node))
 
 
-def _dominated(stmts, helpers) -> bool | None:
+def _dominated(stmts, helpers, aliases=frozenset()) -> bool | None:
     """None = no execute call here; True/False = every execute call below is / is not dominated."""
     verdict = None
     guarded = False
     for s in stmts:
-        if _is_guard_stmt(s, helpers):
+        if _is_guard_stmt(s, helpers, aliases):
             guarded = True
             continue
         if not _contains_execute(s):
@@ -62,9 +80,9 @@ def _dominated(stmts, helpers) -> bool | None:
             for fld in ("body", "orelse", "finalbody"):
                 sub = getattr(s, fld, None)
                 if isinstance(sub, list) and sub and isinstance(sub[0], ast.stmt):
-                    subs.append(_dominated(sub, helpers))
+                    subs.append(_dominated(sub, helpers, aliases))
             for h in getattr(s, "handlers", []) or []:
-                subs.append(_dominated(h.body, helpers))
+                subs.append(_dominated(h.body, helpers, aliases))
             subs = [x for x in subs if x is not None]
             v = bool(subs) and all(subs)
         verdict = v if verdict is None else (verdict and v)
@@ -189,7 +207,7 @@ def extract(repo: Path) -> dict:
         f = fns.get(fname)
         if f is None:
             continue
-        v = _dominated(f.body, helpers)
+        v = _dominated(f.body, helpers, _ceiling_aliases(f))
         facts[key] = bool(v)
     # any other place that can run a tool body is an unmodelled execution site: listed, makes the theorem fail
     pk = package_facts(repo)
